@@ -39,7 +39,10 @@ impl Application for SimApp {
                 st.reach("handler_panic_path");
             });
             if formatted {
-                panic!("simulated application panic on connection {}", id);
+                // now and then a long message with multi-byte characters (what a panic quoting a
+                // file name or user text looks like)
+                let tail = if (id as u64 + world().sc.index) % 3 == 0 { "\u{1f600}".repeat(61) } else { String::new() };
+                panic!("simulated application panic on connection {} {}{}", id, "/unable to read file: ", tail);
             } else {
                 panic!("simulated application panic");
             }
